@@ -16,6 +16,7 @@ def allOps : List (String × (V → R V)) :=
   ++ scheduleOps
   ++ serialOps
   ++ loggingOps
+  ++ spaceOps
 
 def dispatch (op : String) (a : V) : R V :=
   match allOps.find? (·.1 == op) with
